@@ -71,6 +71,12 @@ ASSUME ~HasRepeats(L2) /\ HasNegative(L2)
 ASSUME HasRepeats(L3) /\ HasRepeatedSrc(L3) /\ ~HasDupEntry(L3)
 ASSUME HasDupEntry(L4)
 
+\* replay of one stored scenario: the generated module defines Script (a sequence of action records) and TLC recomputes
+\* the expectations along exactly that history
+Do(e) == CASE e.a = "Linearize" -> Linearize(e.q)
+           [] e.a = "SetComplex" -> SetComplex(e.b)
+           [] e.a = "Apply" -> Apply(e.mode, e.sd)
+
 \* a history is exported when it is complete
 Export == Len(hist) = Depth => PrintT(<<"EXP", ToJson([ly |-> ly, h |-> hist])>>)
 =============================================================================
